@@ -84,11 +84,6 @@ module N =
     | Lt -> true
     | _ -> false
 
-  (** val size_nat : coq_N -> nat **)
-
-  let size_nat = function
-  | N0 -> O
-  | Npos p -> Pos.size_nat p
   (** val log2 : coq_N -> coq_N **)
 
   let log2 = function
@@ -98,6 +93,12 @@ module N =
      | Coq_xI p -> Npos (Pos.size p)
      | Coq_xO p -> Npos (Pos.size p)
      | Coq_xH -> N0)
+
+  (** val size_nat : coq_N -> nat **)
+
+  let size_nat = function
+  | N0 -> O
+  | Npos p -> Pos.size_nat p
 
   (** val pos_div_eucl : positive -> coq_N -> coq_N * coq_N **)
 
